@@ -151,7 +151,7 @@ def run(c):
               "environment / config file / command line. Class = (switch, origin relation, method, preflight?); non-trivial = near miss or OPTIONS.")
     rng = c.rng
     ncfg = 120 if c.quick else 4000
-    for cat in ("switch on", "switch off", "origin configured", "origin prefix", "origin suffix", "origin interior", "origin empty", "origin joined-list", "origin case-variant", "origin absent", "OPTIONS with preflight", "engine B responses"):
+    for cat in ("switch on", "switch off", "origin configured", "origin prefix", "origin suffix", "origin interior", "origin empty", "origin joined-list", "origin case-variant", "origin absent", "OPTIONS with preflight", "engine B responses", "cold-start simultaneous first requests"):
         c.need(cat)
     t = treegen.generate(rng.fork("tree"), depth=0, n_files=3, symlinks=False, plant_secrets=False, tag="c11")
     try:
@@ -191,6 +191,11 @@ def run(c):
                     cid = "s%d" % len(cases)
                     cases.append(serve.case(cid, raw))
                     meta[cid] = (rel, origin, shape, method, "Server::process")
+            if i < (3 if c.quick else 40):
+                # concurrent FIRST use under this configuration (settings read lazily / once must not be observed half-read)
+                pick_cr = [cs for cs in cases if meta[cs.id][0] in ("configured", "unrelated", "absent", "extended") and len(cs.line()) < 4000][:16]
+                core.cold_race_check(c, "C11", pick_cr, trials=25 if c.quick else 200, env=env, cwd=t.root,
+                                     normalise=lambda op, outcome, fields: (outcome, tuple(sorted(f for f in fields if b"ccess-" in f or b"rigin" in f or f.lower().startswith(b"vary")))) if op == "cors.headers" else (outcome, tuple(sorted(l for f in fields[:2] for l in f.split(b"\r\n") if l.lower().startswith(b"access-control-")))))
             obs = core.run_cases(cases, cwd=t.root, env=env, jobs=4, shard_size=max(50, len(cases) // 2 + 1))
             for cid, (rel, origin, shape, method, via) in meta.items():
                 o = obs.get(cid)
@@ -250,6 +255,32 @@ def engine_b(c, t, rng, f):
             if cfg["credentials"]:
                 body += "allow_credentials = %s\n" % cfg["credentials"]
             open(cfgfile, "w").write(body)
+        # the very first requests of fresh servers arrive on all workers at the same instant (configuration that is read
+        # lazily or "once" is read under contention): configured and foreign origins, GET and preflight
+        for k in range(6 if c.quick else 40):
+            cold = server.Server(t.root, threads=8, env=env, args=args)
+            try:
+                if not cold.started:
+                    c.inconc("server did not start (config via %s)" % source)
+                    break
+                plan = []
+                for j in range(8):
+                    rel, origin = (("configured", cfg["origins"][j % len(cfg["origins"])]) if j % 2 == 0 else ("unrelated", "https://evil%d.example" % j))
+                    shape = "get" if j % 4 < 2 else "preflight"
+                    method = "GET" if shape == "get" else "OPTIONS"
+                    hs = [("Host", "localhost"), ("Origin", origin)] + ([("Access-Control-Request-Method", "DELETE"), ("Access-Control-Request-Headers", "X-Other")] if shape == "preflight" else [])
+                    plan.append((rel, origin, shape, method, ("%s %s HTTP/1.1\r\n" % (method, f)).encode() + "".join("%s: %s\r\n" % kv for kv in hs).encode("utf-8") + b"\r\n"))
+                outs = server.simultaneous(cold, [p[4] for p in plan])
+                for (rel, origin, shape, method, raw), data in zip(plan, outs):
+                    c.ev()
+                    r = httpstrict.parse(data, head_request=method == "OPTIONS")
+                    if not r.status:
+                        continue
+                    c.cls("off", rel, method, shape == "preflight", "binary-cold-start:" + source)
+                    c.seen("cold-start simultaneous first requests")
+                    judge(c, cfg, method, rel, origin, shape, r.headers, "binary-cold-start:" + source, {"config": cfg, "source": source, "origin": origin, "origin_relation": rel, "method": method, "cold_start": True})
+            finally:
+                cold.cleanup()
         srv = server.Server(t.root, threads=2, env=env, args=args)
         try:
             if not srv.started:
